@@ -306,6 +306,26 @@ func c16Run(c *core.Ctx, idx int) {
 		}
 		if err != nil {
 			c.Count("outcome.error")
+			// "an unrecognised first element yields a BASIC stack holding all entries": a flat row (no nested rows that
+			// could be malformed in their own right) that starts with a string which is no label cannot be refused
+			if eff0 := stripEnvelopes(in); len(eff0) > 0 {
+				if lab, isStr := eff0[0].(string); isStr {
+					flat := true
+					for _, e := range eff0 {
+						if _, nested := e.([]any); nested {
+							flat = false
+						}
+					}
+					switch strings.ToUpper(lab) {
+					case "AND", "OR", "NOT", "LIST", "BASIC", "CONDITION":
+					default:
+						if flat {
+							c.Violatef("unrecognised-label-refused", desc, "Marshal returned %v for a flat row whose first element %q is no label (expected a BASIC stack of its %d entries): %s", err, lab, len(eff0), shown)
+							return
+						}
+					}
+				}
+			}
 		} else {
 			c.Count("outcome.decoded")
 		}
@@ -415,6 +435,24 @@ func c16Entries(recv stackage.Stack, want []any) string {
 		}
 		if !SameValue(g, w) {
 			return fmt.Sprintf("position %d holds %s, the input has %s there", i, Show(g), Show(w))
+		}
+	}
+	// one and the same row given at two positions meets one and the same fate (decoded at both, or left raw at both)
+	for i := range want {
+		wi, ok := want[i].([]any)
+		if !ok || len(wi) == 0 {
+			continue
+		}
+		for j := i + 1; j < len(want); j++ {
+			wj, ok := want[j].([]any)
+			if !ok || len(wj) != len(wi) || &wj[0] != &wi[0] {
+				continue
+			}
+			_, rawI := sn.Slots[i].([]any)
+			_, rawJ := sn.Slots[j].([]any)
+			if rawI != rawJ {
+				return fmt.Sprintf("the same row was given at positions %d and %d; one was decoded (%s), the other left raw (%s)", i, j, Show(sn.Slots[i]), Show(sn.Slots[j]))
+			}
 		}
 	}
 	return ""
